@@ -2,7 +2,7 @@
 # scripts/mutant.sh <patch.diff> <prop> [<prop>...]   — run checks against a scratch copy of /repo with the patch applied.
 # Prints per property: PASS (exit 0) or the violated/undecided obligations. The scratch copy is removed afterwards.
 set -u
-patch="$1"; shift
+patch="$(realpath "$1")"; shift
 tmp=$(mktemp -d /tmp/bm-mut.XXXXXX)
 trap 'rm -rf "$tmp"' EXIT
 rsync -a --exclude .git /repo/ "$tmp/repo/"
